@@ -28,8 +28,13 @@ def readme():
             rows.append("| %s | %s | %s | %s | %s |" % (
                 name, m["change"], m["needs_to_manifest"],
                 ", ".join("%s: %s" % (k, "/".join(v)) for k, v in m["detected_by"].items()) or "NOT DETECTED",
-                "first try" if m["history"].startswith("detected by the quick") else "after strengthening (see meta.json)"))
+                "first try" if m["history"].startswith("detected by the quick") else
+                "not reported: outside the documented contract (see meta.json)" if not m["detected"] else
+                "by another property's check (see meta.json)" if m["history"].startswith("not a C") or m["history"].startswith("NOT reported by C01") else
+                "after strengthening (see meta.json)"))
     n = len(rows); late = sum("after strengthening" in r for r in rows)
+    out = sum("not reported:" in r for r in rows)
+    other = sum("by another property" in r for r in rows)
     open("/verif/seeded/README.md", "w").write("""# Seeded property-breaking changes (written independently)
 
 Each directory holds a change to mundya/rig written by a fresh sub-agent that was
@@ -43,13 +48,17 @@ only which spot the first contributor had changed, so that it had to pick a
 different mechanism. None of the changes is ever committed to /repo.
 
 All %d keep the 475 baseline tests green and are confirmed by their own
-demonstration; %d were reported by the quick tier as it stood, %d were missed at
-first and led to stronger generators (see the `history` field of their
-meta.json and DESIGN.md section 10).
+demonstration; %d were reported by the quick tier of their property's check as
+it stood, %d were missed at first and led to stronger generators, %d are
+reported by another property's check (the one whose statement they really
+break), and %d (round 7, which asked for unusual argument *types*) are
+deliberately not reported because they only show for argument forms outside
+the documented contract (see the `history` field of each meta.json and
+DESIGN.md section 10.1).
 
 | id | change | needs to manifest | reported by (violation kinds) | detected |
 |----|--------|-------------------|-------------------------------|----------|
-""" % (n, n - late, late) + "\n".join(rows) + "\n")
+""" % (n, n - late - out - other, late, other, out) + "\n".join(rows) + "\n")
 if __name__ == "__main__":
     if len(sys.argv) > 4:
         m = write(*sys.argv[1:6])
